@@ -102,6 +102,11 @@ class Program:
         from .inline import inline_new_constants, reference_constants
 
         self.folded_constants: list[str] = inline_new_constants({n: t for n, _, _, _, t in parsed}, reference_constants())
+        from . import callnorm
+
+        callnorm.build({n: t for n, _, _, _, t in parsed})
+        for _n, _p, _s, _r, t_ in parsed:
+            callnorm.normalise_tree(t_)
         for name, path, src, raw, tree in parsed:
             from .canon import canon_module
 
